@@ -120,6 +120,7 @@ class Executor:
 
             # Resolve the dependencies of needed
             dep_graph = nx.DiGraph(G.edges)
+            dep_graph.add_nodes_from(G.nodes)
             for node in sort_order:
                 attr = G.nodes[node]
                 if attr.keys() >= {'operation', 'output'}:
